@@ -6,6 +6,7 @@
 #include <stdint.h>
 #include <string.h>
 #include <time.h>
+#include <stdio.h>
 #include "core/coreApi.h"
 
 #define VFH_STREAMS 16
@@ -15,6 +16,7 @@ static int g_stream = 0;
 static int64_t g_now_ms = 1000000;              /* monotonic virtual clock */
 static int64_t g_epoch_base = 1790000000;       /* 2026-09-21T..Z : inside testkeys and /verif/pki validity */
 uint64_t vfh_entropy_calls = 0, vfh_entropy_bytes = 0;
+int vfh_trace = 0;
 /* last bytes handed out (for the nonce/IV ledger of C17) */
 void (*vfh_entropy_tap)(const unsigned char *bytes, uint32_t size) = 0;
 
@@ -49,6 +51,10 @@ int32 __wrap_psGetEntropy(unsigned char *bytes, uint32 size, void *userPtr)
     (void) userPtr;
     vfh_entropy_calls++;
     vfh_entropy_bytes += size;
+    if (vfh_trace)
+    {
+        fprintf(stderr, "[entropy] stream=%d ctr=%llu size=%u\n", g_stream, (unsigned long long) g_ctr[g_stream], size);
+    }
     while (i < size)
     {
         uint64_t v = mix(g_seed * 0x100000001B3ULL + ((uint64_t) g_stream << 56) + g_ctr[g_stream]++);
